@@ -97,6 +97,8 @@ def fn_session(spec, rec):
             rec.label("class:" + c)
     if spec["links"]:
         rec.label("has-links")
+        for L in spec["links"]:
+            rec.label("link:" + L["kind"])
     if spec["joins"]:
         rec.label("has-joins")
 
